@@ -444,6 +444,20 @@ Theorem C20_reject_unknown_order1_variable vars pre v post o2 given :
 Proof. exact (reject_unknown_order1_variable vars pre v post o2 given). Qed.
 Print Assumptions C20_reject_unknown_order1_variable.
 
+Theorem C20_reject_unknown_order2_variable vars o1 pre v w post given :
+  smem v vars = false -> not_magnitude v = true ->
+  seq_build_ok vars o1 (pre ++ (v, w) :: post) given = Reject ValueError /\
+  seq_build_ok vars o1 (pre ++ (w, v) :: post) given = Reject ValueError.
+Proof. exact (reject_unknown_order2_variable vars o1 pre v w post given). Qed.
+Print Assumptions C20_reject_unknown_order2_variable.
+
+(* "magnitude" and the sequence's own variables are accepted in any pairing *)
+Theorem C20_accept_known_order2_variables vars o2 :
+  (forall p, In p o2 -> (fst p = "magnitude"%string \/ In (fst p) vars) /\ (snd p = "magnitude"%string \/ In (snd p) vars)) ->
+  seq_build_ok vars [] o2 vars = Accept.
+Proof. exact (accept_known_order2_variables vars o2). Qed.
+Print Assumptions C20_accept_known_order2_variables.
+
 Theorem C20_reject_pulse_sample_above_1 rf alpha pre v post dur :
   given rf alpha -> 1 < abs2 v -> pulse_ok rf alpha 1 (pre ++ v :: post) dur = Reject ValueError.
 Proof. exact (reject_pulse_sample_above_1 rf alpha pre v post dur). Qed.
